@@ -83,13 +83,16 @@ def run_mutant(m: dict, tier: str, with_tests: bool, jobs: int) -> dict:
             shutil.copytree(REPO / "tests", scratch / "tests")
             shutil.copy(REPO / "pyproject.toml", scratch / "pyproject.toml")
             env = dict(os.environ, PYTHONPATH=str(scratch / "src"), PYTHONDONTWRITEBYTECODE="1")
-            p = subprocess.run(
-                ["/venv/bin/python", "-m", "pytest", "-q", "-x", "-p", "no:cacheprovider",
-                 "--timeout=300", *m["tests"]],
-                cwd=scratch, env=env, capture_output=True, text=True,
-            )  # fmt: skip
-            res["suite"] = "passes" if p.returncode == 0 else "fails"
-            res["suite_tail"] = p.stdout.strip().splitlines()[-1:] if p.stdout else []
+            try:
+                p = subprocess.run(
+                    ["/venv/bin/python", "-m", "pytest", "-q", "-x", "-p", "no:cacheprovider",
+                     "--timeout=300", *m["tests"]],
+                    cwd=scratch, env=env, capture_output=True, text=True, timeout=1200,
+                )  # fmt: skip
+                res["suite"] = "passes" if p.returncode == 0 else "fails"
+                res["suite_tail"] = p.stdout.strip().splitlines()[-1:] if p.stdout else []
+            except subprocess.TimeoutExpired:
+                res["suite"] = "hangs"
 
         return res
     finally:
